@@ -9,4 +9,6 @@ INVARIANT NoCommands
 INVARIANT NoLoss
 INVARIANT EndToEnd
 INVARIANT RoundTrip
+INVARIANT CallInv
+INVARIANT RefInvSync
 CHECK_DEADLOCK FALSE
